@@ -83,12 +83,17 @@ def build_world(F, rng, base):
     return dict(itab=itab, btab=btab, beads_samples=bs, fx=fx, mo=mo, healthy=healthy, base=base)
 
 
-def apply_fault(h, kind):
+# spellings of a path at which no FCS file can be opened: a missing name, a missing folder, an existing folder, a
+# path through a regular file, an over-long name (each is an OSError on open(); "file not found" for the workflow)
+MISSING_PATHS = ['does_not_exist.fcs', 'no_such_dir/x.fcs', '.', 's0.fcs/inner.fcs', 'n' * 300 + '.fcs', 'does_not_exist.fcs']
+
+
+def apply_fault(h, kind, variant=0):
     r = dict(h)
     if kind is None:
         return r
     if kind == 'missing-file':
-        r['fp'] = 'does_not_exist.fcs'
+        r['fp'] = MISSING_PATHS[variant % len(MISSING_PATHS)]
     elif kind == 'few-events':
         r['fp'] = 's_few.fcs'
     elif kind == 'fraction-neg':
@@ -163,7 +168,7 @@ def run(ctx):
             assign = [kinds[int(rng.integers(len(kinds)))] if rng.random() < 0.6 else None for _ in range(int(rng.integers(4, 6)))]
         hs = [W['healthy'][int(rng.integers(len(W['healthy'])))] for _ in assign]
         # beads-related faults need a healthy row that reports MEF on FL1; all pool rows allow switching u1 to MEF
-        rows = [apply_fault(h, k) for h, k in zip(hs, assign)]
+        rows = [apply_fault(h, k, int(rng.integers(len(MISSING_PATHS)))) for h, k in zip(hs, assign)]
         stab = table(rows)
         o = run_table(stab)
         ctx.counters['chk:no-escape'] += 1
@@ -247,7 +252,7 @@ def run(ctx):
         for i, k in enumerate(assign):
             r = dict(ID='Q%d' % i, iid='I0', fp='b_good.fcs', m1='800, 5000, 30000', m2='1600, 10000, 60000', gf=0.5)
             if k == 'missing-file':
-                r['fp'] = 'nope.fcs'
+                r['fp'] = ['nope.fcs', '.', 'b_good.fcs/x.fcs', 'nope.fcs'][int(rng.integers(4))]
             elif k == 'few-events':
                 r['fp'] = 'b_few.fcs'
             elif k == 'fraction-neg':
